@@ -160,6 +160,13 @@ fn err_to_res(e: &MuxerError) -> (Res, usize) {
 
 pub fn make_builder<W>(sink: W, cfg: &ProgCfg) -> MuxerBuilder<W> {
     let mut b = MuxerBuilder::new(sink);
+    // earlier calls first; the later ones must replace them completely
+    if let Some(v) = &cfg.video_prior {
+        b = if v.alias { b.set_video_track(v.codec.to_lib(), v.width, v.height, v.fps.0) } else { b.video(v.codec.to_lib(), v.width, v.height, v.fps.0) };
+    }
+    if let Some(a) = &cfg.audio_prior {
+        b = if a.alias { b.set_audio_track(a.codec.to_lib(), a.rate, a.channels) } else { b.audio(a.codec.to_lib(), a.rate, a.channels) };
+    }
     if let Some(v) = &cfg.video {
         b = if v.alias {
             b.set_video_track(v.codec.to_lib(), v.width, v.height, v.fps.0)
@@ -399,7 +406,7 @@ pub fn build_frag(cfg: &FragCfg) -> (Option<FragmentedMuxer>, Res) {
     });
     if cfg.via_builder {
         let r = guarded(|| {
-            let mut b = MuxerBuilder::new(Vec::<u8>::new()).video(cfg.codec.to_lib(), cfg.width, cfg.height, 30.0);
+            let mut b = MuxerBuilder::new(Vec::<u8>::new()).video(cfg.codec.to_lib(), cfg.width, cfg.height, cfg.fps.0);
             if let Some(s) = &cfg.sps {
                 b = b.with_sps(s.0.clone());
             }
